@@ -151,6 +151,8 @@ type c08Replay struct {
 	HasRow  bool    `json:"has_row_mode"`
 	HasBat  bool    `json:"has_batch_mode"`
 	ErrText string  `json:"error,omitempty"`
+	// the number a DELETE reported (machine-integer twin, Corr/C08M.v)
+	DelCount *int `json:"reported_deleted,omitempty"`
 }
 
 func sliceOf(flat []int, s, c int) []int {
@@ -204,7 +206,13 @@ func c08Emit(e *emitter, rp c08Replay) {
 	term := fmt.Sprintf("Case %d %d %d %d %s %s %s", kindN, rp.B, mStart, mCount,
 		coqNatListList(rp.Chunks), optNatList(rp.HasBat, rp.ObsB), optNatList(rp.HasRow, rp.ObsR))
 	nontrivial := len(flat) > 0 && (rp.Start > 0 || rp.Count < len(flat))
-	idx := e.add(term, rp, nontrivial)
+	var idx int
+	if c08OnlyM {
+		idx = c08AddM(e, rp, kindN, nontrivial) // extreme grid: the machine-integer twin only
+	} else {
+		idx = e.add(term, rp, nontrivial)
+		c08AddM(e, rp, kindN, false) // the same case through the machine-integer twin, unclamped
+	}
 	e.count("kind=" + rp.Kind)
 	e.count(fmt.Sprintf("B=%d", rp.B))
 	switch {
@@ -464,6 +472,11 @@ func runStmtCase(e *emitter, kind string, n, B, s, c int) {
 				errText = res.Err.Error()
 			}
 			if kind == "delete" || kind == "delete-keys" {
+				if len(res.Rows) == 1 && len(res.Rows[0]) == 1 {
+					if n, ok := res.Rows[0][0].(int); ok {
+						rp.DelCount = &n
+					}
+				}
 				for _, cl := range st2.log {
 					if cl.Op == "BatchDelete" {
 						for _, k := range cl.Ks {
@@ -555,7 +568,7 @@ func boundary(B int, top bool) []int {
 
 func runC08(c *runCtx) error {
 	r := newRng(c.seed)
-	e := newEmitter(c.out, "C08", "From Coq Require Import List String.\nFrom KV Require Import Corr.C08.\nImport ListNotations.\n", 1500)
+	e := newEmitter(c.out, "C08", "From Coq Require Import List String ZArith.\nFrom KV Require Import Base.Bytes Corr.C08M Corr.C08.\nImport ListNotations.\nOpen Scope string_scope.\nNotation case := xcase (only parsing).\nNotation mismatches := xmismatches (only parsing).\nNotation Case := XCase (only parsing).\n", 1500)
 	e.m.Rule = "node level: (B, start, count, chunking of rows 0..n-1) grid; statement level: (kind, store size, B, start, count); non-trivial = non-empty unlimited result and the slice is a proper part of it (start>0 or count<n); distinct = distinct Gallina case terms"
 	// part A: node level, exhaustive grid for small B
 	Bs := []int{1, 2, 3}
@@ -668,6 +681,8 @@ func runC08(c *runCtx) error {
 			}
 		}
 	}
+	// machine integers: extreme grid through Model/Limit64.v, LIMIT numerals through the parser twin
+	runC08Machine(c, e, r)
 	e.m.Exhaustive = true
 	return e.flush()
 }
